@@ -906,12 +906,14 @@ impl EdnsData {
     }
 
     pub fn get_extended_dns_error(&self) -> Option<(EdeCode, String)> {
-        self.get_opt(&EDNS_EDE).map(|opt| {
-            (
-                EdeCode(u16::from_be_bytes([opt.data[0], opt.data[1]])),
-                String::from_utf8_lossy(&opt.data[2..]).into_owned(),
-            )
-        })
+        self.get_opt(&EDNS_EDE)
+            .and_then(|opt| match opt.data.as_slice() {
+                [hi, lo, text @ ..] => Some((
+                    EdeCode(u16::from_be_bytes([*hi, *lo])),
+                    String::from_utf8_lossy(text).into_owned(),
+                )),
+                _ => None,
+            })
     }
 
     pub fn set_opt(&mut self, opt: EdnsOption) {
